@@ -128,7 +128,9 @@ def oracle(spec, config=None):
             out[n["name"]] = make_rows(n["name"], r[:, 0], r[:, 1], r[:, 2])
         elif kind == "rowmap":
             t, e, v = _tev(out[n["dep"]], n["dep"])
-            opt = config.get(f"opt_{n['name']}", n.get("opt_default", 0)) if n.get("has_opt") else 0
+            opt = 0
+            if n.get("has_opt") and n.get("opt_track", True):     # an untracked option must not change results
+                opt = config.get(n.get("opt_name", f"opt_{n['name']}"), n.get("opt_default", 0))
             out[n["name"]] = make_rows(n["name"], t, e, n["a"] * v + n["b"] + opt)
         elif kind == "filter":
             t, e, v = _tev(out[n["dep"]], n["dep"])
@@ -214,7 +216,11 @@ class _HarnessMixin:
     H_FAULT = None      # {'node':..., 'row_time': T | 'chunk': i, 'kind': 'raise'|<byzantine kind>}
     H_KINDS = None
 
+    H_FAIL_RUN = None   # run id for which this plugin raises (multi-run checks)
+
     def _h_log(self, start, end, kw, extra=None):
+        if self.H_FAIL_RUN is not None and self.H_FAIL_RUN == self.run_id:
+            raise InjectedFault(f"injected failure for run {self.run_id}")
         if self.H_LOG is not None:
             self.H_LOG.append((self.H_NODE["name"] if "name" in self.H_NODE else self.H_NODE["names"][0],
                                None if start is None else int(start), None if end is None else int(end),
@@ -301,7 +307,9 @@ class _RowMap(_HarnessMixin, strax.Plugin):
         n = self.H_NODE
         self._h_log(start, end, kw)
         (arr,) = kw.values()
-        opt = self.config.get(f"opt_{n['name']}", 0) if n.get("has_opt") else 0
+        opt = 0
+        if n.get("has_opt") and n.get("opt_track", True):
+            opt = self.config[n.get("opt_name", f"opt_{n['name']}")]
         res = make_rows(n["name"], arr["time"], arr["endtime"], n["a"] * arr[f"v_{n['dep']}"] + n["b"] + opt)
         f = self._h_fault_hit(kw)
         if f is not None:
@@ -619,9 +627,14 @@ def build_classes(spec, log=None, fault=None, prefix="H"):
             attrs["loop_over"] = kinds[n["deps"][0]]
         cname = n.get("class_name") or f"{prefix}_{nm[0]}"
         cls = type(cname, (base,), attrs)
+        options = []
         if n.get("has_opt"):
-            cls = strax.takes_config(strax.Option(f"opt_{n['name']}", default=n.get("opt_default", 0),
-                                                  track=n.get("opt_track", True), type=int))(cls)
+            options.append(strax.Option(n.get("opt_name", f"opt_{n['name']}"), default=n.get("opt_default", 0),
+                                        track=n.get("opt_track", True), type=int))
+        for eo in n.get("extra_opts", []):
+            options.append(strax.Option(eo["name"], default=eo["default"], track=eo.get("track", True)))
+        if options:
+            cls = strax.takes_config(*options)(cls)
         import dst.dyn as dyn
         setattr(dyn, cname, cls)
         for d in nm:
